@@ -930,7 +930,7 @@ def gen_pycli() -> str:
     f = find_func(m, "analyze_python_file")
     if f is not None:
         for n in ast.walk(f):
-            if isinstance(n, ast.Compare) and isinstance(n.ops[0], ast.NotIn) and isinstance(n.comparators[0], ast.Tuple):
+            if isinstance(n, ast.Compare) and isinstance(n.ops[0], ast.NotIn) and isinstance(n.comparators[0], ast.Tuple) and ast.unparse(n.left) == "path.suffix":
                 suffixes = const_strs(n.comparators[0]) or []
             if isinstance(n, ast.Compare) and isinstance(n.ops[0], ast.Gt) and isinstance(n.comparators[0], ast.Constant) and isinstance(n.comparators[0].value, int):
                 limit = n.comparators[0].value
